@@ -56,7 +56,7 @@ def run(ctx):
                 g = LiveGen(table, rng, p_branch=0.22, p_ring=0.2)
             kind = rng.random()
             if kind < 0.6:
-                x = g.string(nfrag=rng.choice([1, 1, 2, 3, 3, 10]), length=rng.choice([5, 10, 30, 80]) if rng.random() < 0.85 else 5)
+                x = g.string(nfrag=rng.choice([1, 1, 2, 3, 3, 10, 40]), length=(rng.choice([5, 10, 30, 80]) if i % 50 else rng.choice([400, 1200])) if rng.random() < 0.85 else 5)
             elif kind < 0.8 and data:
                 x = "".join(mutate_symbols(tokens_with_dots(rng.choice(data)), rng, pool))
             else:
